@@ -33,7 +33,8 @@ def spellings(canon, wd):
     return out
 
 
-WDS = [("/vfs/p", "/vfs/p", "/anywhere"), ("/vfs/p/d", "/vfs/p/d", "/anywhere"), (".", "/vfs/p", "/vfs/p"), ("d", "/vfs/p/d", "/vfs/p"), ("../p", "/vfs/p", "/vfs/q"), ("", "/vfs/p", "/vfs/p")]
+WDS = [("/vfs/p", "/vfs/p", "/anywhere"), ("/vfs/p/d", "/vfs/p/d", "/anywhere"), (".", "/vfs/p", "/vfs/p"), ("d", "/vfs/p/d", "/vfs/p"), ("../p", "/vfs/p", "/vfs/q"), ("", "/vfs/p", "/vfs/p"),
+       ("/", "/", "/anywhere"), (".", "/", "/")]
 
 
 def _q3a(fa, sa, wa, fb, sb, wb, shape):
@@ -235,10 +236,10 @@ def _t0_rows(nf):
 
 QUERIES = [
     {"name": "Q3a", "fn": q3a,
-     "shards": {"quick": [{"wa": a, "wb": b, "shape": (a + b) % 3} for a, b in ((0, 0), (1, 0), (2, 0), (3, 2), (4, 1), (0, 3))],
-                "thorough": [{"wa": a, "wb": b, "shape": sh} for a in range(5) for b in range(5) for sh in range(3) if not (WDS[a][2] != "/anywhere" and WDS[b][2] != "/anywhere" and WDS[a][2] != WDS[b][2])]},
+     "shards": {"quick": [{"wa": a, "wb": b, "shape": (a + b) % 3} for a, b in ((0, 0), (1, 0), (2, 0), (3, 2), (4, 1), (0, 3), (6, 0), (1, 7))],
+                "thorough": [{"wa": a, "wb": b, "shape": sh} for a in (0, 1, 2, 3, 4, 6, 7) for b in (0, 1, 2, 3, 4, 6, 7) for sh in range(3) if not (WDS[a][2] != "/anywhere" and WDS[b][2] != "/anywhere" and WDS[a][2] != WDS[b][2])]},
      "timeout": {"quick": 600, "thorough": 900},
-     "bound": "3 canonical files x 8 generated spellings (relative, ./, absolute, doubled slash, q/.., trailing slash, /./, ././.) for an output of A and an input of B; working-directory pairs: 6 (quick) / all compatible pairs of 5 incl. relative ones under 2 cwds x 3 container shapes (thorough)"},
+     "bound": "3 canonical files x 8 generated spellings (relative, ./, absolute, doubled slash, q/.., trailing slash, /./, ././.) for an output of A and an input of B; working-directory pairs (incl. the file-system root as working directory and as cwd): 8 (quick) / all compatible pairs of 5 incl. relative ones under 2 cwds x 3 container shapes (thorough)"},
     {"name": "Q3b", "fn": q3b,
      "shards": {"quick": [{"nt": 2, "nf": 3, "order": o} for o in GW.perms(2)] + [{"nt": 3, "nf": 2, "order": o} for o in ([0, 1, 2], [2, 1, 0], [1, 2, 0])],
                 "thorough": [{"nt": 3, "nf": 3, "order": o, "fix_t0": r} for o in GW.perms(3) for r in _t0_rows(3)]},
